@@ -266,7 +266,7 @@ def check(run: Run) -> None:
         n = 0
         for st in ("RefLinkAlternativeState", "InteriorFromRefAlternativeState"):
             fa = R.fn(run, ALT, f"{st}::SourceNotifier::notify")
-            cs = [R.callee_name(c) for c in R.calls(fa)]
+            cs = [R.callee_name(c) for c in R.acting_calls(fa)]
             cn = R.aliases_of(fa)
             run.count(1, f"C13.f.{st}.notify")
             rf = R.calls(fa, "refresh")
